@@ -157,12 +157,12 @@ def schedule_replay(pid, tier, wd, st, verdict, binary, rng):
     st.sched_replayed = total
 
 
-def run_real(binary, wd, tag, runs, timeout=3000):
+def run_real(binary, wd, tag, runs, timeout=3000, env=None):
     """Execute run specs on the real compiler. Returns (results by id, trace path)."""
     runfile = os.path.join(wd, "runs_%s.jsonl" % tag)
     tracefile = os.path.join(wd, "trace_%s.ndjson" % tag)
     vf.jsonl_write(runfile, runs)
-    rc, out, err = vf.run_driver(binary, [tracefile], stdin_path=runfile, timeout=timeout)
+    rc, out, err = vf.run_driver(binary, [tracefile], stdin_path=runfile, timeout=timeout, env=env)
     res = {}
     for line in out.splitlines():
         try:
@@ -174,12 +174,16 @@ def run_real(binary, wd, tag, runs, timeout=3000):
         # An unrecovered panic in a goroutine of the code under test kills the driver process. That is
         # behaviour of the real code (C07: "does not crash"), not a machinery failure - but only when the
         # panic's stack is in the compiler and not in the harness.
-        in_code = ("panic:" in err and "github.com/bufbuild/protocompile.(" in err
-                   and "zzverif" not in err.split("github.com/bufbuild/protocompile.(")[0][-400:])
+        marker = "panic:" if "panic:" in err else ("fatal error:" if "fatal error:" in err else None)
+        in_code = (marker is not None and "github.com/bufbuild/protocompile" in err
+                   and "zzverif" not in err[err.index(marker):].split("github.com/bufbuild/protocompile")[0][-400:])
+        if rc == 66 and env and "GORACE" in env:
+            in_code = False
+            return res, tracefile   # race reports are read from the log files by the caller
         if not in_code:
             raise vf.MachineryError("compexec driver failed rc=%s: %s" % (rc, err[-2000:]))
         nxt = next((r for r in runs if r["id"] not in res), runs[-1])
-        first = err[err.index("panic:"):][:1500]
+        first = err[err.index(marker):][:1500]
         res[nxt["id"]] = {"id": nxt["id"], "class": "crash", "err": "process died: " + first, "descs": {}, "leak": 0,
                           "hung": False, "panic_ok": False, "crashed_process": True}
     return res, tracefile
@@ -264,7 +268,7 @@ def classify_run(verdict, spec, case, res):
         allowed = ({"cycle"} if case["hasCycle"] else set()) | {"dup"}
     if spec.get("cancel", 0) > 0:
         allowed.add("ctx")
-    small = {k: spec[k] for k in ("imports", "req", "plan", "par", "seed", "cancel", "public", "shared", "reporter", "ovr", "collide", "opts") if k in spec}
+    small = {k: spec[k] for k in ("imports", "req", "plan", "par", "seed", "cancel", "public", "shared", "reporter", "ovr", "collide", "opts", "srcres", "fanin") if k in spec}
     cls = res["class"]
     if res.get("hung"):
         verdict.disagree("hang", small, "Compile did not return within the watchdog; stacks:\n" + res.get("stacks", "")[:3000])
@@ -397,6 +401,7 @@ def run(pid, tier, replay=None):
             classify_run(verdict, by_id[rid], cases[by_id[rid]["case"]], r)
         if pid == "C05":
             c05_compare(verdict, runs, res)
+            c05_fanin_race(wd, name, cases, verdict, st, tier, rng)
         cap = 1000 if tier == "quick" else 5000
         if len(runs) > cap:
             # every run's outcome is checked; a seed-chosen subset of the traces is validated by TLC
@@ -425,7 +430,7 @@ def run(pid, tier, replay=None):
                 "counts distinct abstract feature vectors (cyclic?, faulty?, fault kinds, #requested, par, #edges, out-degree profile)",
         "samples": st.samples, "families": st.families, "configurations": st.configs,
         "schedules_replayed_through_gates": getattr(st, "sched_replayed", 0),
-        "exhaustive": all(f["graph_sample"] == 0 for f in st.families),
+        "exhaustive": all(f.get("graph_sample", 0) == 0 for f in st.families),
     }, ["CompileExec.tla models compiler.go at critical-section granularity (DESIGN Appendix A); semaphore grant order is "
         "nondeterministic in the model (Go's is FIFO: a refinement)",
         "hook events are logged at linearization points (under the protecting mutex; give-up events before, obtain events after)",
@@ -505,6 +510,41 @@ def c05_compare(verdict, runs, res):
                 verdict.disagree("nondeterministic:error-class", small, "class %s vs %s" % (o["class"], ref["class"]))
 
 
+def c05_fanin_race(wd, name, cases, verdict, st, tier, rng):
+    """Public re-export fan-in under the race detector: every import-free file re-exports a hidden leaf whose
+    type every file uses, so several importers resolve symbols through the same already-linked dependency
+    at the same time. Any race report (or a crash such as 'concurrent map writes') is a violation."""
+    binary = vf.build_driver("compexec", race=True)
+    pick = [c for c in cases if not c.get("ovr") and not c["hasCycle"] and len(c["req"]) >= 2]
+    pick = rng.sample(pick, min(len(pick), 40 if tier == "quick" else 300))
+    runs = []
+    rid = 1
+    for c in pick:
+        for par in (2, 4):
+            for s in seeds_for(3):
+                runs.append({"id": rid, "case": 0, "imports": c["imports"], "req": c["req"], "plan": c["plan"], "par": par,
+                             "seed": s, "trace": False, "public": True, "fanin": True})
+                rid += 1
+    if not runs:
+        return
+    logp = os.path.join(wd, "race_" + name)
+    res, _tf = run_real(binary, wd, name + "_fanin", runs, env={"GORACE": "halt_on_error=0 log_path=" + logp})
+    st.runs += len(res)
+    for rid_, o in res.items():
+        if o["class"] != "ok":
+            sp = next(r for r in runs if r["id"] == rid_)
+            verdict.disagree("fanin:" + o["class"].split(":")[0], {k: sp[k] for k in ("imports", "req", "par", "seed", "public", "fanin")}, o.get("err", "")[:600])
+    for fn in os.listdir(wd):
+        if fn.startswith("race_" + name):
+            txt = open(os.path.join(wd, fn)).read()
+            if "DATA RACE" in txt:
+                import re
+                fr = re.findall(r"^  ([\w./()*]+)\(\)", txt, re.M)
+                top = next((f for f in fr if "protocompile" in f and "zzverif" not in f), "?")
+                verdict.disagree("data-race:" + top.split("/")[-1], {"log": fn, "flavour": "public fan-in"}, txt[:3000])
+    st.families.append({"family": "fanin-race:" + name, "runs": len(res)})
+
+
 # ---------------------------------------------------------------------------------------------
 # C07: every fault position x cancellation point
 
@@ -520,6 +560,11 @@ def c07_runs(cases, tier, rng):
                      "ovr": c.get("ovr", False), "seed": s, "cancel": k, "trace": True}
                 runs.append(r)
                 rid += 1
+                if k == 0 and not c.get("ovr"):
+                    # the same fault plan realised through the library's SourceResolver with two import paths
+                    r2 = dict(r); r2["id"] = rid; r2["srcres"] = True
+                    runs.append(r2)
+                    rid += 1
     if tier == "quick" and len(runs) > 3000:
         keep = sorted(rng.sample(range(len(runs)), 3000))
         runs = [runs[i] for i in keep]
